@@ -22,6 +22,8 @@ type readerModel struct {
 	res   *resolver
 	uf    map[ssa.Value]ssa.Value // union-find over slice-typed SSA values (phi / append webs)
 	loops map[*ssa.Function][]*ssau.Loop
+
+	foreignGroupGuard string
 }
 
 func (x *ctx) newReaderModel(root *ssa.Function) *readerModel {
@@ -661,6 +663,11 @@ func (x *ctx) streamR(rm *readerModel, ctl bool) map[*ssa.Function]*parserUse {
 		}
 		spec := table[tag]
 		viol := rm.listOnlyExtended(a.at.Call.Args[0], tag)
+		if entry, _ := armEntry(a.at.Block()); entry != nil && viol == "" {
+			if l := loopOf(entry); l != nil && canBypass(entry, l.Header, map[ssa.Instruction]bool{a.at: true}, l.Blocks) {
+				viol = "a '" + tag + "' record can be consumed without being appended to its list (the scan loop is continued on a path through the arm that is not an error return): every later record is numbered one lower than the file-global index the faces use"
+			}
+		}
 		for _, s := range sets {
 			if s.attr != spec.attrConst || s.method != setter[spec.getter] {
 				viol = fmt.Sprintf("'%s' data ends up in %s(%q); the writer emits '%s' records from %s(%q)", tag, s.method, s.attr, tag, spec.getter, spec.attrConst)
@@ -1527,23 +1534,49 @@ func (rm *readerModel) guardedByNonEmpty(h ssa.Instruction) bool {
 		return false
 	}
 	b := h.Block()
+	guarded := false
 	for b != nil {
 		d := b.Idom()
 		if d == nil {
-			return false
+			return guarded
 		}
 		if ifi, ok := d.Instrs[len(d.Instrs)-1].(*ssa.If); ok && len(b.Preds) == 1 && b.Preds[0] == d && d.Succs[0] != d.Succs[1] {
-			if isEmptinessCond(ifi.Cond, 0) {
-				return true
-			}
 			// stop at the arm's own tag test
 			if c, ok := ifi.Cond.(*ssa.BinOp); ok && c.Op == token.EQL {
 				if _, isS := constStr(c.Y); isS {
-					return false
+					return guarded
 				}
+				if _, isS := constStr(c.X); isS {
+					return guarded
+				}
+			}
+			switch {
+			case isEmptinessCond(ifi.Cond, 0):
+				guarded = true
+			case isNilCheck(ifi.Cond):
+			default:
+				rm.foreignGroupGuard = "whether a 'g' record closes the working group also depends on a condition (" + describeCond(ifi.Cond) + " at " + rm.x.P.Pos(ssau.PosOf(ifi)) + ") other than the group being empty: groups for which it is skipped are merged into one mesh"
 			}
 		}
 		b = d
+	}
+	return guarded
+}
+
+func isNilCheck(v ssa.Value) bool {
+	if u, ok := v.(*ssa.UnOp); ok && u.Op == token.NOT {
+		return isNilCheck(u.X)
+	}
+	b, ok := v.(*ssa.BinOp)
+	if !ok || (b.Op != token.EQL && b.Op != token.NEQ) {
+		return false
+	}
+	for _, o := range []ssa.Value{b.X, b.Y} {
+		if c, ok := o.(*ssa.Const); ok && c.Value == nil {
+			if _, isIface := c.Type().Underlying().(*types.Interface); isIface {
+				return true
+			}
+		}
 	}
 	return false
 }
@@ -1617,9 +1650,13 @@ func (x *ctx) groupR(rm *readerModel, ctl bool) {
 	default:
 		viol := ""
 		for _, h := range inG {
+			rm.foreignGroupGuard = ""
 			if !rm.guardedByNonEmpty(h) {
 				viol = "the hand-off in the 'g' arm is not skipped when the working group has no faces yet: a file that starts with a 'g' line (every file the writer produces for named meshes) yields an extra empty mesh"
 			}
+		}
+		if viol == "" && rm.foreignGroupGuard != "" {
+			viol = rm.foreignGroupGuard
 		}
 		x.record(ctl, "GROUP-R", construct, inG[0], nil, viol, "", fmt.Sprintf("%d hand-off(s) in the 'g' arm (skipped while the group is empty), %d after the scan loop", len(inG), len(afterLoop)))
 	}
